@@ -9,6 +9,8 @@ res = {}
 for k in ids:
     meta = json.load(open(f'/verif/harmless/{k}/meta.json'))
     prop = meta['keeps_property']
+    if meta.get('obsolete'):
+        print(k, prop, 'obsolete'); continue
     wt = f'/tmp/harmmatrix/{k}'
     os.makedirs('/tmp/harmmatrix', exist_ok=True)
     run(['git', '-C', '/repo', 'worktree', 'remove', '--force', wt])
